@@ -55,6 +55,8 @@ func c03(c *Ctx) {
 	c03MeasuredReads(p, r)
 	c03PrefixFromZero(p, r)
 	c03TailKept(p, r, encode)
+	r.Floor("C03.R10", 2)
+	c03OriginRecorded(p, r)
 	// ---- R4 widening table
 	widen := c03Table(p, r)
 	// ---- R1 relocation loop: function that appends the result of a call reaching the re-encoder
